@@ -280,6 +280,12 @@ class Gen:
                 if tgt in bsyn:
                     esyn(tgt['id'])
                 ns = {'id': f'{L["id"]}-{be["id"]}-ns', 'synset': tgt['id'], 'meta': self.meta()}
+                if self.chance(0.5):
+                    ns['adjposition'] = r.choice(['a', 'p', 'ip'])
+                if self.chance(0.4):
+                    ns['lexicalized'] = self.chance(0.5)
+                if self.chance(0.4):
+                    ns['examples'] = [self.example()]
                 senses.append(ns)
             if senses:
                 ee['senses'] = senses
